@@ -17,10 +17,12 @@ import (
 	"fmt"
 	"go/ast"
 	"go/format"
+	"go/parser"
 	"go/token"
 	"go/types"
 	"os"
 	"path/filepath"
+	"reflect"
 	"sort"
 	"strconv"
 	"strings"
@@ -67,9 +69,9 @@ var fsFuncs = map[string]bool{"WriteFile": true, "ReadFile": true, "Stat": true,
 
 // network seam (I2)
 var netPkgs = map[string]map[string]bool{
-	"pkg/haproxy/socket":                  {"Dial": true},
-	"pkg/controller/services":             {"LookupIP": true, "LookupHost": true},
-	"pkg/converters/ingress/annotations":  {"LookupIP": true, "LookupHost": true},
+	"pkg/haproxy/socket":                 {"Dial": true},
+	"pkg/controller/services":            {"LookupIP": true, "LookupHost": true},
+	"pkg/converters/ingress/annotations": {"LookupIP": true, "LookupHost": true},
 }
 
 // gates (I6): package suffix -> receiver type -> method -> gate name
@@ -80,6 +82,83 @@ var gateSpecs = []gateSpec{
 	{"pkg/controller/services", "Services", "reloadHAProxy", "reload"},
 	{"pkg/controller/services", "Services", "acmeCheck", "acmecheck"},
 	{"pkg/controller/services", "svcStatusUpdater", "notify", "status"},
+	// the acme queue worker: one certificate verification at a time, when the scheduler says so.
+	// The gate sits where the processing of a queue item starts: the callback of the queue
+	// (svcAcmeClient.notify) when the tree has it, else the signer entry point.
+	{"pkg/controller/services", "svcAcmeClient", "notify", "acmenotify"},
+	{"pkg/acme", "signer", "Notify", "acmenotify"},
+}
+
+// gateTaken: gate names already placed (the first spec of a name that matches wins).
+var gateTaken = map[string]bool{}
+
+// prologues (I7): statements put at the start of a method; they only use
+// identifiers the injected export file of that package declares (tag verif).
+type prologueSpec struct{ pkg, recv, method, name, src string }
+
+var prologueSpecs = []prologueSpec{
+	// leadership is decided by the harness (no API server to hold a lease against)
+	{"pkg/controller/services", "svcLeader", "isLeader", "leader", "if simLeader != nil { return *simLeader }"},
+	// the acme work queue facade: the harness observes what the instance asks for
+	{"pkg/controller/services", "svcAcmeClient", "Add", "acme.add", `simAcmeNote("add", item)`},
+	{"pkg/controller/services", "svcAcmeClient", "AddAfter", "acme.addafter", `simAcmeNote("addafter", item)`},
+	{"pkg/controller/services", "svcAcmeClient", "Remove", "acme.remove", `simAcmeNote("remove", item)`},
+	// the ACME protocol client (network) is replaced by the one the harness provides
+	{"pkg/acme", "signer", "AcmeAccount", "acme.client", `if SimClientFactory != nil {
+		s.client = nil
+		if c := SimClientFactory(endpoint, emails, termsAgreed); c != nil { s.client = c }
+		s.account = Account{Endpoint: endpoint, Emails: emails, TermsAgreed: termsAgreed}
+		return
+	}`},
+}
+
+func insertPrologues(p *packages.Package, f *ast.File, rel, filename string) bool {
+	changed := false
+	for _, d := range f.Decls {
+		fd, ok := d.(*ast.FuncDecl)
+		if !ok || fd.Body == nil {
+			continue
+		}
+		for _, ps := range prologueSpecs {
+			if ps.pkg != rel || ps.recv != recvName(fd) || ps.method != fd.Name.Name {
+				continue
+			}
+			pf, err := parser.ParseFile(token.NewFileSet(), "", "package p\nfunc f() {\n"+ps.src+"\n}", 0)
+			if err != nil {
+				die("prologue %s: %v", ps.name, err)
+			}
+			stmts := pf.Decls[0].(*ast.FuncDecl).Body.List
+			// positions of the parsed snippet belong to another file set: drop them
+			for _, st := range stmts {
+				ast.Inspect(st, func(n ast.Node) bool { clearPos(n); return true })
+			}
+			fd.Body.List = append(append([]ast.Stmt{}, stmts...), fd.Body.List...)
+			note("I7.prologue", filename, ps.name)
+			changed = true
+		}
+	}
+	return changed
+}
+
+// clearPos zeroes the token positions of a node built from another file set.
+func clearPos(n ast.Node) {
+	if n == nil {
+		return
+	}
+	v := reflect.ValueOf(n)
+	if v.Kind() != reflect.Ptr || v.IsNil() {
+		return
+	}
+	e := v.Elem()
+	if e.Kind() != reflect.Struct {
+		return
+	}
+	for i := 0; i < e.NumField(); i++ {
+		fld := e.Field(i)
+		if fld.Type() == reflect.TypeOf(token.NoPos) && fld.CanSet() {
+			fld.SetInt(0)
+		}
+	}
 }
 
 func main() {
@@ -116,6 +195,33 @@ func main() {
 		die("%d package error(s); the tree does not type-check", nerr)
 	}
 	sort.Slice(pkgs, func(i, j int) bool { return pkgs[i].PkgPath < pkgs[j].PkgPath })
+	// a gate name with several candidate places goes to the first one (in gateSpecs order) the tree has
+	{
+		exists := map[int]bool{}
+		for _, p := range pkgs {
+			rel := strings.TrimPrefix(p.PkgPath, "github.com/jcmoraisjr/haproxy-ingress/")
+			for _, f := range p.Syntax {
+				for _, d := range f.Decls {
+					if fd, ok := d.(*ast.FuncDecl); ok && fd.Body != nil {
+						for i, gs := range gateSpecs {
+							if gs.pkg == rel && gs.recv == recvName(fd) && gs.method == fd.Name.Name {
+								exists[i] = true
+							}
+						}
+					}
+				}
+			}
+		}
+		chosen := map[string]bool{}
+		var keep []gateSpec
+		for i, gs := range gateSpecs {
+			if exists[i] && !chosen[gs.name] {
+				chosen[gs.name] = true
+				keep = append(keep, gs)
+			}
+		}
+		gateSpecs = keep
+	}
 	for _, p := range pkgs {
 		rel := strings.TrimPrefix(p.PkgPath, "github.com/jcmoraisjr/haproxy-ingress/")
 		for i, f := range p.Syntax {
@@ -136,6 +242,7 @@ func main() {
 			if insertGates(p, f, rel, filename) {
 				changed = true
 			}
+			plainChanged := insertPrologues(p, f, rel, filename)
 			if *yields && rel == "pkg/controller/reconciler" && filepath.Base(filename) == "watchers.go" {
 				if insertYields(p, f, filename) {
 					changed = true
@@ -148,6 +255,8 @@ func main() {
 						astutil.DeleteImport(p.Fset, f, imp)
 					}
 				}
+			}
+			if changed || plainChanged {
 				var buf bytes.Buffer
 				if err := format.Node(&buf, p.Fset, f); err != nil {
 					die("format %s: %v", filename, err)
@@ -159,10 +268,13 @@ func main() {
 		}
 	}
 	// sanity: the pinned tree has sites for every pass; zero means the pass is broken.
-	for _, pass := range []string{"I1.fs", "I2.net", "I3.maprange", "I6.gate"} {
+	for _, pass := range []string{"I1.fs", "I2.net", "I3.maprange", "I6.gate", "I7.prologue"} {
 		if rep.Sites[pass] == 0 {
 			die("pass %s rewrote zero sites", pass)
 		}
+	}
+	if rep.Sites["I7.prologue"] != len(prologueSpecs) {
+		die("pass I7.prologue placed %d of %d prologues", rep.Sites["I7.prologue"], len(prologueSpecs))
 	}
 	if len(rep.Gates) < 2 {
 		die("gates found: %v (need at least reconcile and reload)", rep.Gates)
@@ -295,9 +407,10 @@ func insertGates(p *packages.Package, f *ast.File, rel, filename string) bool {
 			continue
 		}
 		for _, gs := range gateSpecs {
-			if gs.pkg != rel || gs.recv != recvName(fd) || gs.method != fd.Name.Name {
+			if gs.pkg != rel || gs.recv != recvName(fd) || gs.method != fd.Name.Name || gateTaken[gs.name] {
 				continue
 			}
+			gateTaken[gs.name] = true
 			stmt := &ast.DeferStmt{Call: &ast.CallExpr{
 				Fun: &ast.SelectorExpr{X: ast.NewIdent("zzsimrt"), Sel: ast.NewIdent("GateDone")},
 				Args: []ast.Expr{&ast.CallExpr{
